@@ -49,6 +49,18 @@ Init == /\ \E e \in SignVecs :
              /\ sig = <<Cardinality({i \in 1..N : e[i] = 1}), Cardinality({i \in 1..N : e[i] = Neg1})>>
         /\ ncong = 0 /\ rows = <<>> /\ U = <<>> /\ D = <<>>
 
+\* second universe of forms: every symmetric integer matrix with entries in -FormRng..FormRng whose
+\* leading principal minors are all non-zero; the signature is then given by Jacobi's rule
+UpperPairs == {pr \in (1..N) \X (1..N) : pr[1] <= pr[2]}
+SymOf(f) == [i \in 1..N |-> [j \in 1..N |-> IF i <= j THEN f[<<i, j>>] ELSE f[<<j, i>>]]]
+InitSym == /\ \E f \in [UpperPairs -> (0 - FormRng)..FormRng] :
+                LET G == SymOf(f)
+                    ms == LeadMinors(G)
+                IN /\ JacobiDefined(ms)
+                   /\ F = G
+                   /\ sig = <<N - JacobiNeg(ms), JacobiNeg(ms)>>
+           /\ ncong = 0 /\ rows = <<>> /\ U = <<>> /\ D = <<>>
+
 \* S = I + c E_ij ; F' = S^T F S
 ElemMat(i, j, c) == [a \in 1..N |-> [b \in 1..N |-> IF a = b THEN 1 ELSE IF a = i /\ b = j THEN c ELSE 0]]
 Cong(i, j, c) ==
